@@ -252,15 +252,14 @@ def fillPoly (p : Paint) (pts : List Int) : Res Paint :=
     scanLines pts.toArray (pts.length / 2) (hi - lo + 1).toNat hi p
   | _ => .panic
 
-/-- `DrawExecutor::round_rect` -/
+/-- `DrawExecutor::round_rect` (as repaired: corner offsets scaled in i64) -/
 def roundRect (p : Paint) (x1 y1 x2 y2 par : Int) : Res Paint := do
   let dxx ← chk (x2 - x1)
   let xr := min (resW p / 64) (Int.tdiv dxx 2)
   let dyy ← chk (y2 - y1)
   let yr := min xr (Int.tdiv dyy 2)
-  let sc (k r : Int) : Res Int := do
-    let m ← chk (k * r)
-    pure (Int.tdiv m 32767)
+  -- as repaired: `(k * r as i64 / 32767) as i32` — the product in i64 (|k * r| < 2^46), the quotient is smaller than `r`
+  let sc (k r : Int) : Res Int := pure (Int.tdiv (k * r) 32767)
   let xo1 ← sc 12539 xr
   let xo2 ← sc 23170 xr
   let xo3 ← sc 30273 xr
